@@ -96,7 +96,7 @@ func New(id, level string) *Run {
 	}
 	r.ReplayPath = *replay
 	r.Shard = *shard
-	r.noEvidence = *noev
+	r.noEvidence = *noev || os.Getenv("VERIF_NOEVIDENCE") == "1"
 	if s := os.Getenv("VERIF_SEED"); s != "" {
 		r.seed, _ = strconv.Atoi(s)
 	}
